@@ -5,18 +5,20 @@
 (* judgement of the records the real library produced.                                                          *)
 EXTENDS Integers, Sequences, FiniteSets, TLC, Json, IOUtils
 
-CONSTANTS Mode, MaxLen
+CONSTANTS Mode, MaxLen,
+          Full      \* TRUE: the float alphabet also has "E" and "+"
 VARIABLE x
 
-Sym == {"0", "1", "7", "8", "9", "a", "f", "x", "b", "+", "-"}
-DecVal(c) == CASE c = "0" -> 0 [] c = "1" -> 1 [] c = "7" -> 7 [] c = "8" -> 8 [] c = "9" -> 9 [] OTHER -> -1
+\* "EACUTE": a two-byte character (no text containing it is in a lexical form; the interpretation must still return nothing)
+Sym == {"0", "1", "7", "8", "9", "a", "f", "x", "b", "+", "-", "EACUTE"}
+DecVal(c) == CASE c = "0" -> 0 [] c = "1" -> 1 [] c = "5" -> 5 [] c = "7" -> 7 [] c = "8" -> 8 [] c = "9" -> 9 [] OTHER -> -1
 HexVal(c) == CASE c = "a" -> 10 [] c = "b" -> 11 [] c = "f" -> 15 [] OTHER -> DecVal(c)
 RECURSIVE FoldH(_, _, _)
 FoldH(s, base, acc) == IF s = <<>> THEN acc ELSE FoldH(Tail(s), base, acc * base + HexVal(Head(s)))
 AllIn(s, ok(_)) == \A i \in 1..Len(s) : ok(s[i])
 IsDec(c) == DecVal(c) >= 0
 IsHex(c) == HexVal(c) >= 0
-IsOct(c) == c \in {"0", "1", "7"}
+IsOct(c) == c \in {"0", "1", "5", "7"}
 IsBin(c) == c \in {"0", "1"}
 Drop(s, k) == SubSeq(s, k + 1, Len(s))
 \* the lexical forms: [ok, v]
@@ -27,7 +29,7 @@ Form(s) ==
   ELSE IF Len(s) >= 2 /\ s[1] = "0" /\ AllIn(Drop(s, 1), IsOct) THEN [ok |-> TRUE, v |-> FoldH(Drop(s, 1), 8, 0)]
   ELSE LET sign == IF s # <<>> /\ s[1] = "-" THEN -1 ELSE 1
            body == IF s # <<>> /\ s[1] \in {"+", "-"} THEN Drop(s, 1) ELSE s IN
-       IF body # <<>> /\ body[1] \in {"1", "7", "8", "9"} /\ AllIn(body, IsDec) THEN [ok |-> TRUE, v |-> sign * FoldH(body, 10, 0)]
+       IF body # <<>> /\ body[1] \in {"1", "5", "7", "8", "9"} /\ AllIn(body, IsDec) THEN [ok |-> TRUE, v |-> sign * FoldH(body, 10, 0)]
        ELSE [ok |-> FALSE, v |-> 0]
 Width == [i8 |-> <<-128, 127>>, u8 |-> <<0, 255>>, i16 |-> <<-32768, 32767>>, u16 |-> <<0, 65535>>,
           i32 |-> <<-2147483647 - 1, 2147483647>>, u32 |-> <<0, 2147483647>>, i64 |-> <<-2147483647 - 1, 2147483647>>, u64 |-> <<0, 2147483647>>]
@@ -35,22 +37,85 @@ Width == [i8 |-> <<-128, 127>>, u8 |-> <<0, 255>>, i16 |-> <<-32768, 32767>>, u1
 Fits(w, v) == Width[w][1] <= v /\ v <= Width[w][2]
 Expect(s) == LET f == Form(s) IN [w \in DOMAIN Width |-> IF f.ok /\ Fits(w, f.v) THEN <<f.v>> ELSE <<>>]
 RECURSIVE Cat(_)
-Cat(s) == IF s = <<>> THEN "" ELSE Head(s) \o Cat(Tail(s))
+Cat(s) == IF s = <<>> THEN "" ELSE (IF Head(s) = "EACUTE" THEN "{c3}{a9}" ELSE Head(s)) \o Cat(Tail(s))
 Texts == UNION {[1..n -> Sym] : n \in 1..MaxLen}
+
+\* ---------------------------------------------------------------- the numerical (float) forms and the boolean form
+\* [+-]? ( [0-9] | [1-9][0-9]+ ) ( . [0-9]+ )? ( [eE] [+-]? [0-9]+ )?  |  INF | -INF | NaN      value = mantissa * 10^exponent
+FSym == {"0", "1", "5", ".", "e", "-"} \cup (IF Full THEN {"E", "+"} ELSE {})
+FTokens == {<<"INF">>, <<"-INF">>, <<"NaN">>, <<"true">>, <<"false">>, <<"+INF">>, <<"TRUE">>, <<"nan">>}
+FTexts == UNION {[1..n -> FSym] : n \in 1..(MaxLen + 1)} \cup FTokens
+IsD(c) == c \in {"0", "1", "5"}
+RECURSIVE DPrefix(_)
+DPrefix(s) == IF s # <<>> /\ IsD(Head(s)) THEN 1 + DPrefix(Tail(s)) ELSE 0
+RECURSIVE Norm(_, _)
+Norm(m, e) == IF m = 0 THEN <<0, 0>> ELSE IF m % 10 = 0 THEN Norm(m \div 10, e + 1) ELSE <<m, e>>
+FVal(t, neg, m, e) == [t |-> t, neg |-> neg, m |-> m, e |-> e]
+FNone == [ok |-> FALSE, v |-> FVal("none", FALSE, 0, 0)]
+FForm(s) ==
+  IF s = <<"INF">> THEN [ok |-> TRUE, v |-> FVal("inf", FALSE, 0, 0)]
+  ELSE IF s = <<"-INF">> THEN [ok |-> TRUE, v |-> FVal("inf", TRUE, 0, 0)]
+  ELSE IF s = <<"NaN">> THEN [ok |-> TRUE, v |-> FVal("nan", FALSE, 0, 0)]
+  ELSE IF s \in FTokens THEN FNone
+  ELSE
+  LET sgn == IF s # <<>> /\ s[1] \in {"+", "-"} THEN 1 ELSE 0
+      neg == s # <<>> /\ s[1] = "-"
+      b == Drop(s, sgn)
+      ip == DPrefix(b)
+      afterI == Drop(b, ip)
+      hasDot == afterI # <<>> /\ afterI[1] = "."
+      fp == IF hasDot THEN DPrefix(Drop(afterI, 1)) ELSE 0
+      afterF == IF hasDot THEN Drop(afterI, 1 + fp) ELSE afterI
+      hasE == afterF # <<>> /\ afterF[1] \in {"e", "E"}
+      eb == IF hasE THEN Drop(afterF, 1) ELSE <<>>
+      esgn == IF eb # <<>> /\ eb[1] \in {"+", "-"} THEN 1 ELSE 0
+      eneg == eb # <<>> /\ eb[1] = "-"
+      ed == Drop(eb, esgn)
+      ok == /\ ip >= 1 /\ (ip = 1 \/ b[1] # "0") /\ (hasDot => fp >= 1)
+            /\ (hasE => (ed # <<>> /\ AllIn(ed, IsD))) /\ (~hasE => afterF = <<>>)
+      mant == FoldH(SubSeq(b, 1, ip) \o (IF hasDot THEN SubSeq(afterI, 2, 1 + fp) ELSE <<>>), 10, 0)
+      ex == (IF hasE THEN (IF eneg THEN -1 ELSE 1) * FoldH(ed, 10, 0) ELSE 0) - fp
+      nm == Norm(mant, ex) IN
+  \* far from overflow and underflow only: |exponent| <= 300 with at most 6 mantissa digits
+  IF ok /\ Len(ed) <= 3 /\ ex >= -300 /\ ex <= 300 THEN [ok |-> TRUE, v |-> FVal("num", neg, nm[1], nm[2])] ELSE FNone
+\* the boolean form
+BoolOf(txt) == CASE txt = "true" -> <<"true">> [] txt = "1" -> <<"true">> [] txt = "false" -> <<"false">> [] txt = "0" -> <<"false">> [] OTHER -> <<>>
+
+\* ---------------------------------------------------------------- strings with every escapable character
+EscSym == {"&", "<", ">", "'", "\"", "a", " "}
+StrTexts == UNION {[1..n -> EscSym] : n \in 1..(MaxLen - 1)}
+
+NoInt == [w \in DOMAIN Width |-> <<>>]
+Inputs == {[kind |-> "int", s |-> s] : s \in Texts} \cup {[kind |-> "float", s |-> s] : s \in FTexts} \cup {[kind |-> "str", s |-> s] : s \in StrTexts}
+Line(i) ==
+  LET txt == Cat(i.s) IN
+  CASE i.kind = "int" -> [kind |-> "int", text |-> txt, inform |-> Form(i.s).ok, exp |-> Expect(i.s), finform |-> FALSE, fexp |-> FNone.v, bexp |-> BoolOf(txt)]
+    [] i.kind = "float" -> [kind |-> "float", text |-> txt, inform |-> (Form(i.s).ok /\ AllIn(i.s, LAMBDA c : c \in {"0", "1", "5", "+", "-"})),
+                            exp |-> IF AllIn(i.s, LAMBDA c : c \in {"0", "1", "5", "+", "-"}) THEN Expect(i.s) ELSE NoInt,
+                            finform |-> (FForm(i.s).ok /\ ~(Len(i.s) >= 2 /\ i.s[1] = "0" /\ IsD(i.s[2]))), fexp |-> FForm(i.s).v, bexp |-> BoolOf(txt)]
+    [] OTHER -> [kind |-> "str", text |-> txt, inform |-> FALSE, exp |-> NoInt, finform |-> FALSE, fexp |-> FNone.v, bexp |-> <<>>]
 
 \* ---------------------------------------------------------------- judgement
 ASSUME Mode # "judge" \/ TLCSet(12, ndJsonDeserialize(IOEnv.RESULTS))
 Log == TLCGet(12)
 \* record: [text, inform (text is in a lexical form), exp (per width: <<>> or <<v>>), got (per width: <<>> or <<v>>), kind]
 ParseExact(r) == (r.kind = "int" /\ r.inform) => \A w \in DOMAIN Width : r.got[w] = r.exp[w]
-FloatExact(r) == (r.kind = "int" /\ r.inform /\ r.exp.i64 # <<>>) => r.fgot = r.exp.i64
-RoundTrip(r) == (r.kind = "fmt") => r.same
+FloatExact(r) == /\ (r.kind \in {"int", "float"} /\ r.inform /\ r.exp.i64 # <<>>) => r.fgot = r.exp.i64
+                 /\ (r.kind = "float" /\ r.finform) => (r.fcanon.t = r.fexp.t /\ r.fcanon.neg = r.fexp.neg /\ r.fcanon.m = r.fexp.m /\ r.fcanon.e = r.fexp.e)
+\* the boolean interpretation: of every text in some lexical form, exactly true / false / 1 / 0 are booleans
+BoolExact(r) == (r.kind \in {"int", "float"} /\ (r.inform \/ r.finform \/ r.bexp # <<>>)) => r.bool = r.bexp
+\* no interpretation ends in a panic, whatever the text
+NoPanic(r) == ~r.panic
+\* kind "fmt": value -> text -> value; kind "str": string -> attribute value and element text of a written document -> strict load -> string
+RoundTrip(r) == (r.kind \in {"fmt", "str"}) => r.same
 Judge(j) == LET r == Log[j] IN
             /\ IF ParseExact(r) THEN TRUE ELSE PrintT(<<"V", ToJson([step |-> j, pred |-> "ParseExact", prop |-> "C20", r |-> r])>>)
             /\ IF FloatExact(r) THEN TRUE ELSE PrintT(<<"V", ToJson([step |-> j, pred |-> "FloatExact", prop |-> "C20", r |-> r])>>)
             /\ IF RoundTrip(r) THEN TRUE ELSE PrintT(<<"V", ToJson([step |-> j, pred |-> "FormatParse", prop |-> "C20", r |-> r])>>)
+            /\ IF BoolExact(r) THEN TRUE ELSE PrintT(<<"V", ToJson([step |-> j, pred |-> "BoolExact", prop |-> "C20", r |-> r])>>)
+            /\ IF NoPanic(r) THEN TRUE ELSE PrintT(<<"V", ToJson([step |-> j, pred |-> "NoPanic", prop |-> "C20", r |-> r])>>)
 
-Init == CASE Mode = "gen" -> x \in Texts /\ PrintT(<<"I", ToJson([text |-> Cat(x), inform |-> Form(x).ok, exp |-> Expect(x)])>>)
+Init == CASE Mode = "gen" -> x \in Inputs /\ PrintT(<<"I", ToJson(Line(x))>>)
           [] OTHER -> x = 1 /\ (IF Len(Log) >= 1 THEN Judge(1) ELSE TRUE)
 Next == Mode = "judge" /\ x < Len(Log) /\ x' = x + 1 /\ Judge(x + 1)
 Spec == Init /\ [][Next]_x
